@@ -47,9 +47,10 @@ IDXKINDS = ["len", "neglen1", "far", "negfar", "max", "min"]
 def _case(draw):
     fam = draw(st.sampled_from(["seq", "seq", "map", "map", "str", "val"]))
     if fam == "seq":
-        base = draw(seqs.seq_case(kinds=("Array", "List", "Tuple"), ets=("Int", "String", "Probe"), max_ops=14))
-        if base["kind"] == "Tuple" and base["et"] == "Probe":
-            base["et"] = "Int"
+        if draw(st.integers(0, 2)) == 0:
+            base = draw(seqs.seq_case(kinds=("Tuple",), ets=("Int", "String"), max_ops=14))
+        else:
+            base = draw(seqs.seq_case(kinds=("Array", "List"), ets=("Int", "String", "Probe"), max_ops=14))
         return {"fam": fam, "base": base, "at": draw(st.integers(0, 1000)), "fault": draw(st.sampled_from(SEQ_FAULTS)),
                 "idx": draw(st.sampled_from(IDXKINDS))}
     if fam == "map":
@@ -185,6 +186,12 @@ def run_seq(ctx, case):
             P.add("push %9 %91")
             P.add("concat %s %%9" % c, expect_exc(*WRONG))
             key = "concat-partial-append"
+            if known_off(key) and not case.get("strict"):
+                # listed finding: the items before the bad one stay appended.  Only the 'unchanged' assertion of this
+                # cell is replaced (by: exactly the good prefix was appended); raised / exception kind / depth /
+                # ledger / suffix are still checked.
+                r.model.append(good)
+                key = None
     elif f == "concat-null":
         P.add("concat %s null" % c, expect_exc("ValueError"))
     elif f == "resize-grow-tuple":
@@ -207,9 +214,6 @@ def run_seq(ctx, case):
     if not applicable:
         return None
     # unchanged: full dump against the model, ledger, then the valid suffix
-    if key and known_off(key):
-        # the listed finding concerns only the 'unchanged' assertion of this cell: re-synchronise instead
-        return "excluded:" + key
     r.check()
     if et == "Probe":
         P.add("live", expect_ok("live=%d ledger=-" % len(r.model)))
@@ -319,6 +323,9 @@ def run_str(ctx, case):
     elif f == "print-too-few":
         key = "print-too-few-partial-output"
         P.add("print %%0 %d %s i:1" % (len(model), b"%i %i".hex()), expect_exc("FormatError"))
+        if known_off(key) and not case.get("strict"):
+            # listed finding: the conversions before the missing argument were already written
+            model = model + b"1 "
     elif f == "push-unimplemented":
         P.add("push %0 i:1", expect_exc("ClassError"))
         P.add("pop %0", expect_exc("ClassError"))
@@ -327,8 +334,6 @@ def run_str(ctx, case):
         P.add("cfloat %0", expect_exc("ClassError"))
     else:
         raise HarnessBug(f)
-    if key and known_off(key):
-        return "excluded:" + key
     P.add("cstr %0", expect_ok(model.hex()))
     suf = bytes.fromhex(case["suffix"])
     P.add("concat %%0 s:%s" % suf.hex())
@@ -442,4 +447,12 @@ def extra_phase(ctx, tier, stats, sample_fn):
     return {"fails": fails[:12], "extra": {"matrix_cells_enumerated": cells, "matrix_failures": len(fails)}}
 
 
-KNOWN = []
+KNOWN = [
+    {"key": "concat-partial-append",
+     "what": "concat(array|list, items) with an item that cannot be assigned raises after the preceding items were appended",
+     "case": {"fam": "seq", "strict": True, "base": {"kind": "Array", "et": "Int", "ops": [["push", "i:1"], ["push", "i:2"]]},
+              "at": 1000, "fault": "concat-wrongitem", "idx": "len"}},
+    {"key": "print-too-few-partial-output",
+     "what": "print_to with too few arguments raises FormatError after the conversions before the missing argument were written to the sink",
+     "case": {"fam": "str", "strict": True, "init": "6162", "fault": "print-too-few", "suffix": "78"}},
+]
